@@ -592,6 +592,42 @@ def r4_spans_start_at_first_char(ctx):
                            witness="#:a{:b 1} span starts at `{`")
 
 
+@rule("C16.R7", floor=2)
+def r7_incomplete_before_malformed(ctx):
+    """A reader that consumes a generator-reader (a function that yields forms and raises eof_error
+    at end of input) must realise it completely (list()/tuple()) before it validates and raises a
+    plain syntax error: otherwise unterminated input with a local defect (duplicate key) is
+    classified as malformed instead of incomplete. Line comments end at every newline form the
+    stream's line counter knows (\\n, \\r\\n and a lone \\r)."""
+    fns = _reader_functions(ctx)
+    gens = {n for n, f in fns.items() if any(isinstance(x, (ast.Yield, ast.YieldFrom)) for x in ast.walk(f)) and "eof_error" in P.un(f)}
+    ctx.note(f"C16.R7 generator readers: {sorted(gens)}")
+    n = 0
+    for fname, fn in sorted(fns.items()):
+        for c in P.calls(fn):
+            if P.un(c.func) not in gens:
+                continue
+            n += 1
+            par = P.parent(c)
+            realised = isinstance(par, ast.Call) and P.un(par.func) in ("list", "tuple") and par.args and par.args[0] is c
+            raises_in_fn = any(isinstance(r, ast.Raise) and r.exc is not None and "syntax_error" in P.un(r.exc) for r in ast.walk(fn))
+            ok = realised or not raises_in_fn
+            ctx.ob("C16.R7", f"{RD}::{fname}::{P.un(par)[:70]}", RD, c.lineno, ok,
+                   "" if ok else f"{fname} validates elements while {P.un(c.func)} is still reading: `{{:a 1 :a 2` (no closing brace yet) raises a plain syntax error instead of UnexpectedEOFError")
+    rc = fns.get("_read_comment")
+    if rc is None:
+        raise AnalysisError("anchor vanished: _read_comment")
+    uses_class = any(isinstance(c.func, ast.Attribute) and P.un(c.func.value) == "newline_chars" for c in P.calls(rc))
+    regexes = _regex_table(ctx)
+    pat = regexes.get("newline_chars", "")
+    covers = all(x in pat for x in ("\r\n", "\r", "\n"))
+    ok = uses_class and covers
+    ctx.ob("C16.R7", f"{RD}::_read_comment::ends at every newline form (newline_chars={pat!r})", RD, rc.lineno, ok,
+           "" if ok else "a line comment no longer ends at a lone carriage return (which the stream's line counter treats as a line end): `(a ;c\\rb)` swallows the rest of the form and reports an unexpected end of input for complete text")
+    if n == 0:
+        raise AnalysisError("no generator-reader call sites found")
+
+
 # ---------------------------------------------------------------------------------------------
 # R6 REPL cue
 
